@@ -73,6 +73,13 @@ fn main() {
         }
         i += 2;
     }
+    // a runaway allocation in the harness must not take the machine down (the sanitizer builds need their address space)
+    if p.variant.as_deref() != Some("tsan") && p.variant.as_deref() != Some("miri") && !cfg!(miri) {
+        unsafe {
+            let lim = libc::rlimit { rlim_cur: 24 << 30, rlim_max: 24 << 30 };
+            libc::setrlimit(libc::RLIMIT_AS, &lim);
+        }
+    }
     install_panic_hook();
     let mut rep = Report::new(&p.prop);
     let started = std::time::Instant::now();
